@@ -148,7 +148,9 @@ class CFG:
             if isinstance(v, (ast.Tuple, ast.List, ast.Set)) and not any(isinstance(x, ast.Starred) for x in v.elts):
                 return NNT if v.elts else ("c", "empty", ())
             if isinstance(v, ast.Dict):
-                return NNT if v.keys and all(k is not None for k in v.keys) else NN
+                if not v.keys:
+                    return ("c", "empty", ())
+                return NNT if any(k is not None for k in v.keys) else NN
             if isinstance(v, (ast.ListComp, ast.SetComp, ast.DictComp, ast.GeneratorExp, ast.Lambda)):
                 return NN
             return TOP
